@@ -94,6 +94,79 @@ theorem addSeq_pending (s : State) (m : Meta) (o : Opts) (p : Nat) (gen : String
         · rfl
         · rw [start_pending]
 
+/-- What `addBegin` does to the state, case by case. -/
+theorem addBegin_spec (s : State) (m : Meta) (o : Opts) (p : Nat) (gen : String) (sf : Bool) :
+    (∃ err, (addBegin s m o p gen sf).2 = .error err ∧
+      ((addBegin s m o p gen sf).1 = s ∨
+       (p ∈ s.free ∧ (addBegin s m o p gen sf).1 = { s with free := p :: s.free.erase p }))) ∨
+    (∃ q, (addBegin s m o p gen sf).2 = .ok q ∧ p ∈ s.free ∧ q.port = p ∧ q.stage = .reserved ∧
+      (addBegin s m o p gen sf).1 = { s with free := s.free.erase p, pending := q :: s.pending }) := by
+  unfold addBegin addBeginWith
+  by_cases h0 : s.free = []
+  · rw [if_pos h0]; exact Or.inl ⟨_, rfl, Or.inl rfl⟩
+  rw [if_neg h0]
+  by_cases hp : p ∉ s.free
+  · rw [if_pos hp]; exact Or.inl ⟨_, rfl, Or.inl rfl⟩
+  rw [if_neg hp]
+  have hp : p ∈ s.free := Classical.not_not.1 hp
+  dsimp only
+  cases o.id with
+  | some gid =>
+    dsimp only
+    split
+    · exact Or.inl ⟨_, rfl, Or.inr ⟨hp, rfl⟩⟩
+    split
+    · exact Or.inl ⟨_, rfl, Or.inr ⟨hp, rfl⟩⟩
+    · exact Or.inr ⟨_, rfl, hp, rfl, rfl, rfl⟩
+  | none =>
+    dsimp only
+    split
+    · exact Or.inl ⟨_, rfl, Or.inl rfl⟩
+    split
+    · exact Or.inl ⟨_, rfl, Or.inr ⟨hp, rfl⟩⟩
+    · exact Or.inr ⟨_, rfl, hp, rfl, rfl, rfl⟩
+
+/-- **A failing add leaves no trace**: whatever the failure point (no port, duplicate id, storage,
+newTorrent, resume write, inadmissible choice), the set of free ports is what it was (the port that
+was taken is back), and registry, index, database and the adds in flight are untouched. -/
+theorem addSeq_error_restores (s : State) (m : Meta) (o : Opts) (p : Nat) (gen : String) (e : Env) (err : AddErr)
+    (h : (addSeq s m o p gen e).2 = .error err) :
+    (addSeq s m o p gen e).1.free.Perm s.free ∧ (addSeq s m o p gen e).1.reg = s.reg ∧
+    (addSeq s m o p gen e).1.db = s.db ∧ (addSeq s m o p gen e).1.idx = s.idx ∧
+    (addSeq s m o p gen e).1.pending = s.pending := by
+  unfold addSeq at h ⊢
+  rcases addBegin_spec s m o p gen e.stoFail with ⟨err1, h2, h1⟩ | ⟨q, h2, hp, hqp, hst, h1⟩
+  · generalize addBegin s m o p gen e.stoFail = r at h1 h2 h ⊢
+    obtain ⟨s1, r1⟩ := r
+    simp only at h1 h2
+    subst h2
+    dsimp only at h ⊢
+    rcases h1 with rfl | ⟨hp, rfl⟩
+    · exact ⟨List.Perm.refl _, rfl, rfl, rfl, rfl⟩
+    · exact ⟨(List.perm_cons_erase hp).symm, rfl, rfl, rfl, rfl⟩
+  · generalize addBegin s m o p gen e.stoFail = r at h1 h2 h ⊢
+    obtain ⟨s1, r1⟩ := r
+    simp only at h1 h2
+    subst h2
+    subst h1
+    dsimp only at h ⊢
+    rw [addBuild_eq (P := s.pending) rfl hst] at h ⊢
+    cases hb : e.buildFail with
+    | true =>
+      simp only [hb, Bool.not_true, Bool.false_eq_true, if_false, and_true] at h ⊢
+      rw [hqp]; exact (List.perm_cons_erase hp).symm
+    | false =>
+      simp only [hb, Bool.not_false, if_true] at h ⊢
+      rw [addWrite_eq (P := s.pending) rfl rfl] at h ⊢
+      cases hw : e.writeFail with
+      | true =>
+        simp only [hw, Bool.not_true, Bool.false_eq_true, if_false, and_true] at h ⊢
+        rw [hqp]; exact (List.perm_cons_erase hp).symm
+      | false =>
+        simp only [hw, Bool.not_false, if_true] at h
+        rw [addInsert_eq (P := s.pending) rfl rfl] at h
+        simp at h
+
 theorem addSeq_pending_nil {s : State} (hp : s.pending = []) (m : Meta) (o : Opts) (p : Nat) (gen : String) (e : Env) :
     (addSeq s m o p gen e).1.pending = [] := by
   rw [addSeq_pending]; exact hp
